@@ -110,7 +110,9 @@ def scope_model(F, placement, conflict=False):
             return Sym("T::id")
         # no borrow conflicts in this model (C02 owns those); downcasts to the stored type succeed
         if k in ("core::cell::RefCell::try_borrow", "core::cell::RefCell::try_borrow_mut") and isinstance(a0, Sym):
-            if conflict:
+            # conflict: True - every cell is already borrowed; "innermost" - only the cell of the innermost holder is (the
+            # shadowed holders further out are free: a request must still be refused, not served from one of them)
+            if conflict is True or (conflict == "innermost" and a0.tag == "cell@%s" % holder):
                 return err(Sym("BorrowMutError" if k.endswith("_mut") else "BorrowError"))
             return ok(Sym("guard:" + a0.tag))
         if k == "core::cell::RefCell::into_inner" and isinstance(a0, Sym):
